@@ -1096,4 +1096,196 @@ theorem view_skeleton (ts : List XTok) (h : lexOk .content ts = true) : skeleton
   simp only [skeleton, view]
   exact this
 
+/-! ## the Boolean checks of the tokeniser imply the grammar of C06 (converse of `wfText_wfChars`, `wfAttrVal_wfAttr`) -/
+
+theorem lit_ok_of_legal (a : Bool) (c : Char) (h1 : c ≠ '<') (h2 : c ≠ '&')
+    (h3 : legalD (if a && isS c then DCh.c 32 else lit c) = true) : (XUnit.lit c).ok = true := by
+  simp only [XUnit.ok, litOk, Bool.and_eq_true, bne_iff_ne, ne_eq, Bool.or_eq_true, decide_eq_true_eq]
+  refine ⟨⟨h1, h2⟩, ?_⟩
+  by_cases hs : isS c = true
+  · exact Or.inl hs
+  · right
+    have hs' : isS c = false := by simpa using hs
+    simp only [hs', Bool.and_false, Bool.false_eq_true, if_false, lit] at h3
+    split at h3
+    · next hlt =>
+      simp only [legalD, legalChar, Bool.or_eq_true, Bool.and_eq_true, decide_eq_true_eq, beq_iff_eq] at h3
+      have key : ∀ k : Nat, c.toNat = k → isS (Char.ofNat k) = true → False := by
+        intro k hk hS
+        have : c = Char.ofNat k := by rw [← hk]; exact (Char.ofNat_toNat c).symm
+        rw [this] at hs'; rw [hs'] at hS; cases hS
+      rcases h3 with ((((h | h) | h) | h) | h) | h
+      · exact (key 9 h (by decide)).elim
+      · exact (key 10 h (by decide)).elim
+      · exact (key 13 h (by decide)).elim
+      · exact h.1
+      · omega
+      · omega
+    · omega
+
+theorem drop_takeWhile {α} (p : α → Bool) (l : List α) : l.drop (l.takeWhile p).length = l.dropWhile p := by
+  induction l with
+  | nil => rfl
+  | cons a r ih =>
+    simp only [List.takeWhile_cons, List.dropWhile_cons]
+    split
+    · simpa using ih
+    · rfl
+
+theorem numRef_hex_some (r2 : List Char) (v n : Nat) (h : numRef ('#' :: 'x' :: r2) = some (v, n)) :
+    ∃ ds rest, r2 = ds ++ ';' :: rest ∧ ds ≠ [] ∧ (∀ c ∈ ds, isHex c = true) ∧ v = numVal 16 ds ∧
+      n = ds.length + 3 := by
+  simp only [numRef] at h
+  split at h
+  · next rest heq =>
+    split at h
+    · cases h
+    · next hne =>
+      simp only [Option.some.injEq, Prod.mk.injEq] at h
+      rw [drop_takeWhile] at heq
+      refine ⟨r2.takeWhile isHex, rest, ?_, by simpa using hne,
+        fun c hc => Verif.Proofs.Xml.mem_takeWhile_imp' _ _ _ hc, h.1.symm, h.2.symm⟩
+      conv => lhs; rw [← List.takeWhile_append_dropWhile (p := isHex) (l := r2), heq]
+  · cases h
+
+theorem numRef_dec_some (r2 : List Char) (v n : Nat) (hx : ∀ r3, r2 ≠ 'x' :: r3)
+    (h : numRef ('#' :: r2) = some (v, n)) :
+    ∃ ds rest, r2 = ds ++ ';' :: rest ∧ ds ≠ [] ∧ (∀ c ∈ ds, isDig c = true) ∧ v = numVal 10 ds ∧
+      n = ds.length + 2 := by
+  have h' : (match r2.drop (r2.takeWhile isDig).length with
+      | ';' :: _ => if (r2.takeWhile isDig).isEmpty then none
+                    else some (numVal 10 (r2.takeWhile isDig), (r2.takeWhile isDig).length + 2)
+      | _ => none) = some (v, n) := by
+    rw [← h, numRef.eq_2 r2 (fun r3 h3 => hx r3 h3)]
+    rfl
+  split at h'
+  · next rest heq =>
+    split at h'
+    · cases h'
+    · next hne =>
+      simp only [Option.some.injEq, Prod.mk.injEq] at h'
+      rw [drop_takeWhile] at heq
+      refine ⟨r2.takeWhile isDig, rest, ?_, by simpa using hne,
+        fun c hc => Verif.Proofs.Xml.mem_takeWhile_imp' _ _ _ hc, h'.1.symm, h'.2.symm⟩
+      conv => lhs; rw [← List.takeWhile_append_dropWhile (p := isDig) (l := r2), heq]
+  · cases h'
+
+/-- a reference recognised by the specification decoder is a grammar unit -/
+theorem specRef_unit (r : List Char) (d : DCh) (n : Nat) (h : specRef r = some (d, n)) (hl : legalD d = true) :
+    ∃ u : XUnit, u.ok = true ∧ (∀ c, u ≠ .lit c) ∧ '&' :: r = u.chars ++ r.drop n := by
+  cases r with
+  | nil => simp [specRef] at h
+  | cons c r' =>
+    by_cases hc : c = '#'
+    · subst hc
+      have h1 : (numRef ('#' :: r')).map (fun p => (DCh.c p.1, p.2)) = some (d, n) := by
+        rw [← h]; rfl
+      cases hn : numRef ('#' :: r') with
+      | none => simp [hn] at h1
+      | some p =>
+        obtain ⟨v, k⟩ := p
+        simp only [hn, Option.map_some, Option.some.injEq, Prod.mk.injEq] at h1
+        obtain ⟨rfl, rfl⟩ := h1
+        by_cases hx : ∃ r3, r' = 'x' :: r3
+        · obtain ⟨r3, rfl⟩ := hx
+          obtain ⟨ds, rest, rfl, e2, e2', rfl, rfl⟩ := numRef_hex_some r3 v k hn
+          refine ⟨.hex ds, ?_, (by intro c hc; cases hc), ?_⟩
+          · simp only [XUnit.ok, Bool.and_eq_true, List.all_eq_true]
+            exact ⟨⟨by simpa using e2, e2'⟩, by simpa [legalD] using hl⟩
+          · simp [XUnit.chars]
+        · have hx' : ∀ r3, r' ≠ 'x' :: r3 := fun r3 h => hx ⟨r3, h⟩
+          obtain ⟨ds, rest, rfl, e2, e2', rfl, rfl⟩ := numRef_dec_some r' v k hx' hn
+          refine ⟨.dec ds, ?_, (by intro c hc; cases hc), ?_⟩
+          · simp only [XUnit.ok, Bool.and_eq_true, List.all_eq_true]
+            exact ⟨⟨by simpa using e2, e2'⟩, by simpa [legalD] using hl⟩
+          · simp [XUnit.chars]
+    · have hno : ∀ x, c :: r' = '#' :: x → False := by
+        intro x hx; simp only [List.cons.injEq] at hx; exact hc hx.1
+      rw [specRef.eq_2 _ hno] at h
+      split at h
+      · next rest heq =>
+        split at h
+        · cases h
+        · next hne =>
+          rw [drop_takeWhile] at heq
+          have hsplit : c :: r' = (c :: r').takeWhile isNameChar ++ ';' :: rest := by
+            conv => lhs; rw [← List.takeWhile_append_dropWhile (p := isNameChar) (l := c :: r'), heq]
+          have hn : n = ((c :: r').takeWhile isNameChar).length + 1 := by
+            split at h <;> (simp only [Option.some.injEq, Prod.mk.injEq] at h; exact h.2.symm)
+          generalize hnm : (c :: r').takeWhile isNameChar = nm at *
+          have hall : ∀ x ∈ nm, isNameChar x = true := by
+            intro x hx; rw [← hnm] at hx; exact Verif.Proofs.Xml.mem_takeWhile_imp' _ _ _ hx
+          refine ⟨.named nm, ?_, (by intro c hc; cases hc), ?_⟩
+          · simp only [XUnit.ok, Bool.and_eq_true, List.all_eq_true]
+            exact ⟨by simpa using hne, hall⟩
+          · rw [hsplit, hn]
+            simp [XUnit.chars]
+      · cases h
+
+/-- bytes without `<` whose decoding contains only legal items are a sequence of grammar units -/
+theorem units_of_decode (a : Bool) (n : Nat) : ∀ d : List Char, d.length ≤ n → '<' ∉ d →
+    (decodeGo a 0 d).all legalD = true → ∃ us : List XUnit, us.all XUnit.ok = true ∧ d = flat us := by
+  induction n with
+  | zero =>
+    intro d hl _ _
+    have : d = [] := List.length_eq_zero_iff.mp (by omega)
+    subst this
+    exact ⟨[], rfl, rfl⟩
+  | succ n ih =>
+    intro d hl hlt hleg
+    cases d with
+    | nil => exact ⟨[], rfl, rfl⟩
+    | cons c r =>
+      simp only [List.length_cons] at hl
+      have hltr : '<' ∉ r := fun h => hlt (by simp [h])
+      have hc : c ≠ '<' := fun h => hlt (by simp [h])
+      by_cases hamp : c = '&'
+      · subst hamp
+        simp only [decodeGo, beq_self_eq_true, if_true] at hleg
+        cases hs : specRef r with
+        | none => simp [hs, legalD] at hleg
+        | some p =>
+          obtain ⟨dd, k⟩ := p
+          simp only [hs, List.all_cons, Bool.and_eq_true] at hleg
+          obtain ⟨u, hu, _, hsplit⟩ := specRef_unit r dd k hs hleg.1
+          have hrest := hleg.2
+          rw [Verif.Proofs.Xml.decodeGo_skip] at hrest
+          obtain ⟨us, hok, hflat⟩ := ih (r.drop k) (by simp; omega)
+            (fun h => hltr ((List.drop_sublist k r).subset h)) hrest
+          refine ⟨u :: us, by simp [hu, hok], ?_⟩
+          rw [hsplit, flat_cons, ← hflat]
+      · have hne : (c == '&') = false := by simpa using hamp
+        simp only [decodeGo, hne, Bool.false_eq_true, if_false, List.all_cons, Bool.and_eq_true] at hleg
+        obtain ⟨us, hok, hflat⟩ := ih r (by omega) hltr hleg.2
+        have hl1 : legalD (if a && isS c then DCh.c 32 else lit c) = true := by
+          have := hleg.1
+          simpa [Bool.and_eq_true] using this
+        refine ⟨.lit c :: us, by simp [lit_ok_of_legal a c hc hamp hl1, hok], ?_⟩
+        rw [flat_cons, ← hflat]; rfl
+
+/-- **wfChars_wfText**: the tokeniser's check of a run of character data implies the grammar -/
+theorem wfChars_wfText (d : List Char) (hne : d ≠ []) (h : wfChars d = true) : WfText d := by
+  simp only [wfChars, Bool.and_eq_true, Bool.not_eq_true', List.contains_eq_mem, decide_eq_false_iff_not] at h
+  obtain ⟨us, hok, rfl⟩ := units_of_decode false d.length d (Nat.le_refl _) h.1.1 h.1.2
+  exact ⟨us, hok, rfl, fun h0 => hne (by rw [h0]; rfl)⟩
+
+theorem lit_mem_flat (us : List XUnit) (q : Char) (h : XUnit.lit q ∈ us) : q ∈ flat us := by
+  simp only [flat, List.mem_flatMap]
+  exact ⟨.lit q, h, by simp [XUnit.chars]⟩
+
+/-- **wfAttr_wfAttrVal**: the tokeniser's check of an attribute value literal implies the grammar -/
+theorem wfAttr_wfAttrVal (v : List Char) (h : wfAttr v = true) : WfAttrVal v := by
+  obtain ⟨q, body, rfl, hq, hb, hok⟩ := wfAttr_shape v h
+  simp only [attBodyOk, Bool.and_eq_true, Bool.not_eq_true', List.contains_eq_mem, decide_eq_false_iff_not] at hok
+  obtain ⟨us, huok, rfl⟩ := units_of_decode true body.length body (Nat.le_refl _) hok.1 hok.2
+  refine ⟨q, us, hq, huok, ?_, rfl⟩
+  intro hmem
+  have := hb q (lit_mem_flat us q hmem)
+  simp at this
+
+theorem wfCData_of_all (t : List Char) (h : t.all legalByte = true) : WfCDataText t := by
+  intro c hc
+  have := (List.all_eq_true.mp h) c hc
+  simpa [legalByte] using this
+
 end Verif.Proofs.C09XmlLex
